@@ -1,6 +1,6 @@
 (* Runner entry points: one number per executable model function.  The Python
    harness reads the "(* ENTRY n name *)" comments to build its name table. *)
-From HX Require Import Model.Base Model.Cell Model.EmitterEntry Model.Serial Model.DateFns Model.Comparator Model.Value Model.Logic Model.Lookup.
+From HX Require Import Model.Base Model.Cell Model.EmitterEntry Model.Serial Model.DateFns Model.Comparator Model.Value Model.Logic Model.Lookup Model.Text.
 
 Definition dispatch (e : Z) (a : list Z) : list Z :=
   match e with
@@ -24,5 +24,6 @@ Definition dispatch (e : Z) (a : list Z) : list Z :=
   | 1801 => e_CHOOSE a      (* ENTRY 1801 CHOOSE *)
   | 1802 => e_INDEX a       (* ENTRY 1802 INDEX *)
   | 1803 => e_MATCH a       (* ENTRY 1803 MATCH *)
+  | 1501 => e_text a        (* ENTRY 1501 text *)
   | _ => [-999]
   end.
